@@ -151,7 +151,7 @@ func runSelfTest(repo, property string) selfTestResult {
 		return res
 	}
 	var mu sync.Mutex
-	sem := make(chan struct{}, 6)
+	sem := make(chan struct{}, 8)
 	var wg sync.WaitGroup
 	for _, m := range muts {
 		m := m
